@@ -71,7 +71,18 @@ def c17(tier):
         trusted=["translator vh gen ir (reflection walk of *ir.File into generic trees; registry documentation fields; docs/overview.md rows; `go-critic doc` output)"])
 
 
-CHECKS = {"C06": c06, "C14": c14, "C17": c17, "C15": c15, "C16": c16, "C19": c19}
+def c18(tier):
+    vlib.standard(
+        "C18", tier, "c18", ["Properties_C18.v", "Proofs_RuleFiles.v"],
+        assume=[
+            "ruleguard's own classification of load errors is observed, not modelled: only the ImportError type test of the checker is; the harness produces each class with a file known to trigger it",
+            "filepath.Glob results are sorted; a malformed glob is logged and skipped",
+            "TrimSpace is modelled for ASCII white space",
+        ],
+        trusted=["rule files materialised on disk by the harness and loaded through linter.NewChecker from a working directory that can resolve the dsl package"])
+
+
+CHECKS = {"C06": c06, "C14": c14, "C17": c17, "C18": c18, "C15": c15, "C16": c16, "C19": c19}
 
 
 def run(prop, tier):
